@@ -42,6 +42,7 @@ class V:
         self.st = st
         self.witness_fn = None
         self.case = []
+        self.tier = "quick"       # 'thorough' lets a contract explore larger shapes (same obligations, more cases)
 
     # -- building symbolic inputs
     def sym(self, name, ty):
